@@ -429,7 +429,7 @@ def partitions(tier, seed):
         for cls in seqs2:
             P.append(_enc_part(nm, which, cls, timeout=150 if q else 600))
         if which >= 2:
-            for cls in (['PHH', 'PHO', 'PPH'] if q else [c for c in _seqs(3, 'APHO') if 'P' in c] + ['PHU', 'UPH', 'PUH']):
+            for cls in (['PAA', 'PAR', 'PRA', 'PAO', 'POA', 'PPA', 'PRR'] if q else [c for c in _seqs(3, 'APRO') if 'P' in c] + ['PHU', 'UPH', 'PUH']):
                 P.append(_enc_part(nm, which, cls, timeout=150 if q else 600))
     # parse_host
     for form in range(4):
